@@ -138,9 +138,11 @@ PROPS = {
     },
     "C13": {
         "modules": ["C13"],
-        "streams": [{"name": "stake", "quick": 180, "thorough": 6400}, {"name": "apply", "quick": 90, "thorough": 3200}, {"name": "chain", "quick": 60, "thorough": 2400}],
+        "streams": [{"name": "stake", "quick": 180, "thorough": 6400}, {"name": "apply", "quick": 90, "thorough": 3200}, {"name": "chain", "quick": 60, "thorough": 2400},
+                    {"name": "confirm", "quick": 60, "thorough": 3200}],
         "projection": "stakes",
-        "oracles": ["stakes"],
+        # voting power (start <= epoch < end, summed per key) is observable through confirmation decisions
+        "oracles": ["stakes", "confirm"],
         "assumptions": ["the decoded StakeDoc of a transaction's data is an input of the model (decoded by the real stdcode)"],
     },
     "C18": {
